@@ -69,3 +69,30 @@ Proof.
   vm_compute. discriminate.
 Qed.
 Print Assumptions C05_xarray_refuted.
+
+(* Config.contexts groups the calls by equal context before any front end runs them: this only
+   reorders the results — every (context, call) is run exactly once on its own window, also when the
+   same context is listed twice with another one in between *)
+From Coq Require Import Permutation.
+Theorem C05_contexts_grouping : forall (TestId Kw : Type) (test : TestId -> Kw -> rows -> option (list flag)) cfg tbl,
+  Permutation (results_of TestId Kw test (group_contexts TestId Kw cfg) tbl) (results_of TestId Kw test cfg tbl).
+Proof. exact group_contexts_perm. Qed.
+Print Assumptions C05_contexts_grouping.
+
+(* Call.run: for every parameter name, the test receives the value the stream passed if it passed one,
+   else the configured one, and only names of its signature; a raising test yields no result *)
+From IoosQc Require Import CallRun CallRunProofs.
+Theorem C05_call_run_receives : forall (V R : Type) k sig (f : kwargs V -> option R) (configured passed : kwargs V),
+  NoDup (map fst passed) ->
+  klookup k (filter_sig sig (merge_kwargs configured passed)) =
+  if kmem k sig
+  then match klookup k passed with Some v => Some v | None => klookup k configured end
+  else None.
+Proof. exact call_run_receives. Qed.
+Print Assumptions C05_call_run_receives.
+
+Theorem C05_call_run_results : forall (V R : Type) sig (f : kwargs V -> option R) (configured passed : kwargs V),
+  call_run sig f configured passed =
+  match f (filter_sig sig (merge_kwargs configured passed)) with Some r => [r] | None => [] end.
+Proof. exact call_run_results. Qed.
+Print Assumptions C05_call_run_results.
